@@ -289,18 +289,24 @@ func slicesOnlyHoldPrices(w *World, tm *Terms, fn *ssa.Function) bool {
 }
 
 // callSitesOf returns the static call sites of fn in the repository.
+var callSiteIndex map[*ssa.Function][]ssa.CallInstruction
+
 func (w *World) callSitesOf(fn *ssa.Function) []ssa.CallInstruction {
-	var out []ssa.CallInstruction
-	for _, f := range w.Funcs {
-		for _, b := range f.Blocks {
-			for _, in := range b.Instrs {
-				if c, ok := in.(ssa.CallInstruction); ok && w.calleeBody(c.Common()) == fn {
-					out = append(out, c)
+	if callSiteIndex == nil {
+		callSiteIndex = map[*ssa.Function][]ssa.CallInstruction{}
+		for _, f := range w.Funcs {
+			for _, b := range f.Blocks {
+				for _, in := range b.Instrs {
+					if c, ok := in.(ssa.CallInstruction); ok {
+						if callee := w.calleeBody(c.Common()); callee != nil {
+							callSiteIndex[callee] = append(callSiteIndex[callee], c)
+						}
+					}
 				}
 			}
 		}
 	}
-	return out
+	return callSiteIndex[fn]
 }
 
 // zeroGuarded: the divisor is Dec/Int built from an integer n (LegacyNewDec(n)…),
